@@ -36,6 +36,7 @@ type config struct {
 	Entry     string
 	Query     bool // the points differ in nothing but their query string
 	PathCase  bool // the points differ in nothing but the letter case of their path
+	Grouped   bool // all URIs in one DistributionPoint of the certificate's extension
 	WithST    bool // a signing time is supplied (no CRL rule depends on it - which is the point)
 }
 
@@ -53,6 +54,7 @@ func scenario(c config, behs []string) *sims.Scenario {
 		}
 	}
 	sh.Freshest = c.Freshest
+	sh.CDPGrouped = c.Grouped
 	sc.Plans = make([]sims.CertPlan, c.Len)
 	sc.Plans[0] = sims.CertPlan{Shape: sh, CRL: behs}
 	sc.Plans[1].Shape.NoCRLSign = c.NoCRLSign
@@ -367,6 +369,7 @@ func run(r *core.Run) int {
 					}
 					jobs = append(jobs, job{config{CAKind: "p256", Route: "http", Len: 2, Entry: "validate", Cache: cache, Query: true}, []string{a, b}})
 					jobs = append(jobs, job{config{CAKind: "p256", Route: "http", Len: 2, Entry: "validate", Cache: cache, PathCase: true}, []string{a, b}})
+					jobs = append(jobs, job{config{CAKind: "p256", Route: "http", Len: 2, Entry: "validate", Cache: cache, Grouped: true}, []string{a, b}})
 				}
 			}
 		}
